@@ -145,7 +145,13 @@ def angles_beyond_180_degrees_are_rejected():
 # ---------------------------------------------------------------------------
 
 PROFILE = ufunc("shower_profile")
-POTENTIAL = ufunc("vector_potential")
+def _native_potential(t, energy):
+    # native stand-in with the structure of the real RAC functions: a cusp a fraction of a nanosecond wide at t = 0
+    t = np.asarray(t, dtype=float)
+    return -1e-17 * energy * (np.exp(-np.abs(t) / 8e-11) + 0.3 / (1 + (np.abs(t) / 5e-10) ** 2))
+
+
+POTENTIAL = ufunc("vector_potential", native=_native_potential)
 
 
 def _arz():
@@ -186,7 +192,7 @@ def _oncone(n, theta):
 def _cone_angle(n):
     """a viewing angle numerically on the Cherenkov cone (any angle within oncone_range of arccos(1/n))"""
     if NATIVE:
-        return float(np.arccos(1 / n)) + real("cone_offset", -1, 1) * float(resolve(ARZ).oncone_range)
+        return float(np.arccos(1 / n)) + real("cone_offset", -0.9, 0.9) * float(resolve(ARZ).oncone_range)
     th = real("theta", 0, pi)
     assume(_oncone(n, th))
     return th
